@@ -246,6 +246,20 @@ def run_shard(shard, tier):
             acc.nstates += 1
             acc.executions += 1
             acc.cases += 1
+    # every integer value 1..N (an int is a legal value; a conversion must not truncate or special-case it)
+    N = 1000 if tier == 'quick' else 5000
+    for v in si.UNITS[kind]:
+        if v == u:
+            continue
+        for x in range(1, N + 1):
+            exp = si.convert(x, kind, u, v)
+            r = getattr(gu, kind)(x, u).to(v)
+            acc.transitions += 1
+            if r.unit != v or si.ulps_apart(float(r.value), exp) > CONV_ULP:
+                acc.violation(f'C05/conv/integer-value/{kind}/{u}->{v}', 'value*SI[u]/SI[v] also for integer values', 
+                              {'kind': 'conv', 'qkind': kind, 'u': u, 'v': v, 'x': x}, {'got': r.value, 'expected': exp})
+                break
+        acc.nstates += 1
     # far-out members (conversion only; no intermediate overflow/underflow)
     for v in si.UNITS[kind]:
         for x in (1.2345e-100, 7.7e100):
